@@ -149,6 +149,18 @@ def build(row, x, p, NFFT=None, sampling=1.0, scale_by_freq=False):
     raise ValueError(row)
 
 
+def degenerate(row, obj):
+    """A reason string when the fitted model is decided by rounding: an ARMA fit whose AR
+    coefficients exceed 50 in modulus comes from a nearly singular modified Yule-Walker system
+    (a stable polynomial of order <= 6 has coefficients <= 20); relations between two runs on
+    differently rounded data are meaningless there.  Counted as excluded."""
+    if row == "parma":
+        a = attr(obj, "ar")
+        if a is not None and a.size and (not np.all(np.isfinite(a)) or float(np.max(np.abs(a))) > 50.0):
+            return "parma: near-singular modified Yule-Walker system (max|ar| > 50)"
+    return None
+
+
 def psd_of(obj):
     """The object's PSD as a plain array (complex values are kept so that a
     check can flag them)."""
